@@ -39,7 +39,7 @@ func init() {
 			return []group{{Tags: "", Pkgs: []string{"c12"}, Cases: cs}}
 		},
 		Reach:       []string{"transparent-mut", "transparent-read", "inject", "fault-fired", "readonly", "inject-read", "read-fault-fired", "file", "file-fault-fired"},
-		Explanation: "Bounded symbolic execution of FailFS/FailFile over seeded MemFS/OrefaFS bases. Transparent case: every mutating (17) and read-only (10) call with fully symbolic scalars through FailFS (no failure function / a function that never fails) versus the same call on a twin base: same errno, same tree, handed-out files and Sub file systems still wrapped. Failing case: the failure function fails invocation i iff symbolic boolean fail#i (one fault per plan): primitives return exactly the injected error and the base snapshot (with modification times) is unchanged, composites (Create, WriteFile, MkdirTemp, CreateTemp) return an error; every call consults the function at least once. Read-only plan: with failfs.ReadOnlyFunc no call, directly or through Sub or through returned files, changes the base.",
+		Explanation: "Bounded symbolic execution of FailFS/FailFile over seeded MemFS/OrefaFS bases. Transparent case: every mutating (17) and read-only (10) call with fully symbolic scalars through FailFS (no failure function / a function that never fails) versus the same call on a twin base: same errno, same tree, handed-out files and Sub file systems still wrapped. Failing case: the failure function fails invocation i iff symbolic boolean fail#i (one fault per plan): primitives return exactly the injected error and the base snapshot (with modification times) is unchanged, composites (Create, WriteFile, MkdirTemp, CreateTemp) return an error; every call consults the function at least once; after a refused File method the handle answers Stat and Close like a twin handle that never received the call. Read-only plan: with failfs.ReadOnlyFunc no call, directly or through Sub or through returned files, changes the base.",
 		Bounds: func(tier string) map[string]any {
 			return map[string]any{"history": "1 call (+ Sub before it, + writes through returned files)", "faults_per_plan": 1, "operands": 5, "seed_trees": map[string]string{"quick": "1", "thorough": "1,2,3"}[tier], "scalars": "full range (Truncate size <= 8)", "outside": "longer histories; plans with several faults"}
 		},
